@@ -152,8 +152,9 @@ def run(mod, pid, tier, seed, args, t0):
                     for kk, vv in v.items():
                         a[k][kk] = a[k].get(kk, 0) + vv if isinstance(vv, (int, float)) and isinstance(a[k].get(kk, 0), (int, float)) else vv
         res["stats"]["rounds"] = rnd + 1
-        if res["disagreements"]:
-            break
+        listed_ids = {e["id"] for e in vlib.known_findings(pid)}
+        if any(not (d.get("known") and d["known"] in listed_ids) for d in res["disagreements"]):
+            break        # an unlisted disagreement: report it now
     stats = res["stats"] if res else {}
     n = 0
     listed = {e["id"]: e for e in vlib.known_findings(pid)}
